@@ -13,6 +13,7 @@ CONSTANTS
   Interleave = TRUE
   WithTraffic = TRUE
   WithUnknownStop = TRUE
+  Forms = {1}
   LocMaps <- AllLocMaps
   Scale = 1000
 INVARIANTS Report
